@@ -1,6 +1,8 @@
 """C08: rotating a hex block / assembly moves pins, free-coordinate children, per-corner/edge data, displacement and
 orientation accordingly."""
+import copy
 import math
+import os
 
 import numpy as np
 
@@ -41,12 +43,27 @@ def hexdist(i, j):
 
 @harness("C08", bounds="real HexBlock with a pin grid (symbolic pitch, both orientations as instances); three children: "
                        "single-location pin (i,j symbolic), two-location pin, free-coordinate child (x,y symbolic); "
-                       "six symbolic entries of a corner and an edge parameter; symbolic displacement; k in -1..7",
+                       "six symbolic entries of a corner and an edge parameter; symbolic displacement; k in -1..7; the "
+                       "block stands alone or (placed) is the upper block of a two-block assembly sitting at a symbolic "
+                       "cell (ai, aj) of a full-core hex grid: non-zero global position and elevation",
          stubs=STUBS,
          instances={"quick": [dict(k=k, cornersUp=cu) for k in (0, 1, 2, 3, 4, 5, 7, -1) for cu in (False,)] +
-                             [dict(k=2, cornersUp=True), dict(k=5, cornersUp=True)]})
-def block_rotation_moves_everything(ctx, k, cornersUp):
-    b = _build.mk_block()
+                             [dict(k=2, cornersUp=True), dict(k=5, cornersUp=True)] +
+                             [dict(k=1, cornersUp=False, placed=True), dict(k=3, cornersUp=False, placed=True),
+                              dict(k=-2, cornersUp=True, placed=True)],
+                    "thorough": [dict(k=k, cornersUp=False, placed=pl) for k in (0, 1, 2, 3, 4, 5, 7, -1, -2)
+                                 for pl in (False, True)] +
+                                [dict(k=k, cornersUp=True, placed=pl) for k in (2, 5, -2) for pl in (False, True)]})
+def block_rotation_moves_everything(ctx, k, cornersUp, placed=False):
+    if placed:
+        # the rotation is about the BLOCK's axis wherever the block is: off-centre assembly, upper axial slot
+        ai, aj = ctx.int("ai", -20, 20), ctx.int("aj", -20, 20)
+        _r, core, (a,) = _build.mk_core([(0, 0)], symmetry="full", nblocks=2)
+        a.spatialLocator = IndexLocation(ai, aj, 0, core.spatialGrid)
+        b = a[1]
+        blockGlobal0 = [v for v in b.spatialLocator.getGlobalCoordinates()]
+    else:
+        b = _build.mk_block()
     pp = ctx.real("pinPitch", 0.1, 5.0)
     g = HexGrid.fromPitch(pp, numRings=1, cornersUp=cornersUp)
     g.armiObject = b
@@ -107,6 +124,16 @@ def block_rotation_moves_everything(ctx, k, cornersUp):
     ctx.check_close("free-coordinate child x rotated", nx, wx, scale=100.0)
     ctx.check_close("free-coordinate child y rotated", ny, wy, scale=100.0)
     ctx.check_close("free-coordinate child z kept", nz, cz, scale=100.0)
+    ctx.check("free-coordinate child still lives in the block's grid", duct.spatialLocator.grid is g)
+    if placed:
+        blockGlobal = b.spatialLocator.getGlobalCoordinates()
+        gx, gy, gz = duct.spatialLocator.getGlobalCoordinates()
+        gsc = 100.0 + 16.2 * (abs(ai) + abs(aj) + 1)
+        for m in range(3):
+            ctx.check_close("the block itself stays where it is (%s)" % "xyz"[m], blockGlobal[m], blockGlobal0[m], scale=gsc)
+        ctx.check_close("free-coordinate child, global x = block centre + rotated local x", gx, blockGlobal0[0] + wx, scale=gsc)
+        ctx.check_close("free-coordinate child, global y = block centre + rotated local y", gy, blockGlobal0[1] + wy, scale=gsc)
+        ctx.check_close("free-coordinate child, global z = block elevation + local z", gz, blockGlobal0[2] + cz, scale=gsc)
     # boundary data: entry m moves to m+k (mod 6)
     newc, newe = b.p.cornerFastFlux, b.p.pointsEdgeDpa
     for m in range(6):
@@ -127,34 +154,115 @@ def block_rotation_moves_everything(ctx, k, cornersUp):
     ctx.check("rotation number advanced by k (mod 6)", int(b.getRotationNum()) == (int(rot0) + k) % 6)
 
 
-@harness("C08", bounds="assembly of two blocks, each with one pin at a symbolic cell and symbolic corner data; k=1..5",
-         stubs=STUBS, instances={"quick": [dict(k=1), dict(k=4)], "thorough": [dict(k=k) for k in range(1, 6)]})
-def assembly_rotation_rotates_every_block(ctx, k):
-    a = _build.mk_assembly(2)
-    pins = []
-    corners = []
-    for n, b in enumerate(a):
-        g = HexGrid.fromPitch(1.0, numRings=1)
-        g.armiObject = b
-        b.spatialGrid = g
-        i, j = ctx.int("i%d" % n), ctx.int("j%d" % n)
-        b[0].spatialLocator = IndexLocation(i, j, 0, g)
-        c = [ctx.real("c%d_%d" % (n, m), -1e3, 1e3) for m in range(6)]
-        b.p.cornerFastFlux = list(c)
-        pins.append((g, i, j))
-        corners.append(c)
+# ---------------------------------------------------------------------------------------------------------------------
+# "rotating a hex block or assembly moves its pins, free-coordinate children, per-corner/per-edge data, displacement
+# vector and orientation accordingly": ITS pins, ITS data, ITS orientation -- every block of a rotated assembly turns by
+# k x 60 degrees exactly once, whatever the number of blocks, and a block that was not rotated does not change.
+# Blocks keep the orientation vector their constructor (or a deep copy of their assembly) gave them.
+#
+# KNOWN DEFECT (pre-existing, reported by an independent engineer; unchanged tree): HexAssembly.rotate accepts an angle
+# only if math.isclose(rad % (pi/3), 0, abs_tol=1e-12); for many multiples of 60 degrees the float remainder comes out
+# just below pi/3 instead of near 0 and the rotation is refused with ValueError:
+#   k = -3, -5, -6, -7, -9..-14, 15 as k * math.pi / 3 (HexBlock.rotate accepts every one of them), e.g.
+#   mk_assembly(2).rotate(-3 * math.pi / 3) -> ValueError: Rotation must be in 60 degree increments, got -180.0 degrees
+# While the flag is set those k are left out of the instances; VERIF_SHOW_KNOWN_DEFECTS=1 shows the violations.
+KNOWN_DEFECT_hex_assembly_rotate_refuses_some_multiples_of_60_degrees = True
+_SHOW_KNOWN = os.environ.get("VERIF_SHOW_KNOWN_DEFECTS", "") != ""
+_REFUSED_K = [-3, -6] if _SHOW_KNOWN or not KNOWN_DEFECT_hex_assembly_rotate_refuses_some_multiples_of_60_degrees else []
+
+
+def _dress(ctx, b, tag):
+    """give a constructor-built block a pin grid, one pin at a symbolic cell, a free-coordinate child, corner data and a
+    displacement (all symbolic); the orientation is left as the block has it"""
+    g = HexGrid.fromPitch(1.0, numRings=1)
+    g.armiObject = b
+    b.spatialGrid = g
+    d = dict(g=g, i=ctx.int("i" + tag), j=ctx.int("j" + tag),
+             c=[ctx.real("c%s_%d" % (tag, m), -1e3, 1e3) for m in range(6)],
+             f=[ctx.real("f%s%s" % (c, tag), -50.0, 50.0) for c in "xyz"],
+             d=[ctx.real("d%s%s" % (c, tag), -10.0, 10.0) for c in "xy"])
+    b[0].spatialLocator = IndexLocation(d["i"], d["j"], 0, g)
+    b[2].spatialLocator = CoordinateLocation(d["f"][0], d["f"][1], d["f"][2], g)
+    b.p.cornerFastFlux = list(d["c"])
+    b.p.displacementX, b.p.displacementY = d["d"]
+    d["orientation"] = [float(v) for v in b.p.orientation]
+    d["rotNum"] = int(b.getRotationNum())
+    return d
+
+
+def _check_turned(ctx, b, d, k, what, canary=False):
+    """block b (dressed as d) shows a net rotation of k x 60 degrees relative to its dressing; k = 0: untouched"""
+    g = d["g"]
+    want = g.rotateIndex(IndexLocation(d["i"], d["j"], 0, g), k)
+    wi = want.i + (ITE(AND(d["i"] == 2, d["j"] == 2), 1, 0) if canary else 0)
+    got = b[0].spatialLocator
+    ctx.check("%s: pin is at its cell turned by %d deg" % (what, 60 * k), AND(got.i == wi, got.j == want.j))
+    for m in range(6):
+        ctx.check_close("%s: corner entry %d is at %d" % (what, m, (m + k) % 6), b.p.cornerFastFlux[(m + k) % 6], d["c"][m],
+                        scale=1e3)
+    fx, fy, fz = b[2].spatialLocator.getLocalCoordinates()
+    wx, wy = rot(ctx, d["f"][0], d["f"][1], k)
+    ctx.check_close("%s: free-coordinate child x turned by %d deg about the block axis" % (what, 60 * k), fx, wx, scale=100.0)
+    ctx.check_close("%s: free-coordinate child y turned by %d deg about the block axis" % (what, 60 * k), fy, wy, scale=100.0)
+    ctx.check_close("%s: free-coordinate child z kept" % what, fz, d["f"][2], scale=100.0)
+    wdx, wdy = rot(ctx, d["d"][0], d["d"][1], k)
+    ctx.check_close("%s: displacement x turned by %d deg" % (what, 60 * k), b.p.displacementX, wdx, scale=20.0)
+    ctx.check_close("%s: displacement y turned by %d deg" % (what, 60 * k), b.p.displacementY, wdy, scale=20.0)
+    o = [float(v) for v in b.p.orientation]
+    ctx.check("%s: orientation about z advanced by %d deg exactly once (mod 360), x and y orientation kept" % (what, 60 * k),
+              (o[2] - d["orientation"][2] - 60.0 * k) % 360.0 == 0.0 and o[:2] == d["orientation"][:2])
+    ctx.check("%s: rotation number advanced by %d (mod 6)" % (what, k), int(b.getRotationNum()) == (d["rotNum"] + k) % 6)
+
+
+def _blocks_for(ctx, where, n):
+    """n constructor-built blocks: stand-alone, in one assembly, in a deep copy of an assembly, or in an assembly placed
+    at a symbolic off-centre cell of a full core"""
+    if where == "standalone":
+        return None, [_build.mk_block() for _ in range(n)]
+    if where == "placed":
+        ai, aj = ctx.int("ai", -20, 20), ctx.int("aj", -20, 20)
+        _r, core, (a,) = _build.mk_core([(0, 0)], symmetry="full", nblocks=n)
+        a.spatialLocator = IndexLocation(ai, aj, 0, core.spatialGrid)
+        return a, list(a)
+    a = _build.mk_assembly(n)
+    if where == "copied":
+        a = copy.deepcopy(a)
+    return a, list(a)
+
+
+@harness("C08", bounds="assembly of n = 2 or 3 constructor-built blocks (as built / deep copy of the assembly / placed at a "
+                       "symbolic cell of a full core), every block with one pin at a symbolic cell, a free-coordinate "
+                       "child at a symbolic point, symbolic corner data and displacement; k per instance, negative k "
+                       "included", stubs=STUBS,
+         instances={"quick": [dict(k=1), dict(k=4, n=3, where="placed"), dict(k=-2, where="copied"), dict(k=-1, n=3)]
+                             + [dict(k=k) for k in _REFUSED_K],
+                    "thorough": [dict(k=k, n=n, where=w) for k in [1, 2, 3, 4, 5, 6, 7, -1, -2, -4, -8] + _REFUSED_K
+                                 for n, w in ((2, "assembly"), (3, "placed"), (3, "copied"))]})
+def assembly_rotation_rotates_every_block(ctx, k, n=2, where="assembly"):
+    a, blks = _blocks_for(ctx, where, n)
+    dressed = [_dress(ctx, b, str(m)) for m, b in enumerate(blks)]
     a.rotate(k * math.pi / 3.0)
-    for n, b in enumerate(a):
-        g, i, j = pins[n]
-        want = g.rotateIndex(IndexLocation(i, j, 0, g), k)
-        got = b[0].spatialLocator
-        if ctx.canary and n == 1:
-            want = g.rotateIndex(IndexLocation(i, j, 0, g), k + ITE(AND(i == 2, j == 2), 1, 0) if False else k)
-            ctx.check("canary", NOT(AND(i == 2, j == 2, got.i == want.i)))
-        ctx.check("block %d pin rotated like rotateIndex" % n, AND(got.i == want.i, got.j == want.j))
-        for m in range(6):
-            ctx.check_close("block %d corner entry %d moved" % (n, m), b.p.cornerFastFlux[(m + k) % 6], corners[n][m],
-                            scale=1e3)
+    ctx.check("the assembly keeps its blocks", list(a) == blks)
+    for m, b in enumerate(blks):
+        _check_turned(ctx, b, dressed[m], k, "block %d of %d" % (m, n), canary=ctx.canary and m == 1)
+
+
+@harness("C08", bounds="two constructor-built blocks (stand-alone / in one assembly / in a deep copy of an assembly / in an "
+                       "assembly placed at a symbolic cell of a full core), dressed as above; the first is rotated by k1, "
+                       "then the second by k2", stubs=STUBS,
+         instances={"quick": [dict(k1=2, k2=1, where="standalone"), dict(k1=1, k2=3, where="assembly"),
+                              dict(k1=5, k2=-1, where="copied"), dict(k1=3, k2=3, where="placed")],
+                    "thorough": [dict(k1=k1, k2=k2, where=w) for w in ("standalone", "assembly", "copied", "placed")
+                                 for k1, k2 in ((1, 1), (2, 1), (1, 3), (5, -1), (3, 3), (-2, 4), (6, 1))]})
+def rotating_one_block_leaves_the_other_blocks_alone(ctx, k1, k2, where):
+    _a, (b1, b2) = _blocks_for(ctx, where, 2)
+    d1, d2 = _dress(ctx, b1, "A"), _dress(ctx, b2, "B")
+    b1.rotate(k1 * math.pi / 3.0)
+    _check_turned(ctx, b1, d1, k1, "rotated block", canary=ctx.canary)
+    _check_turned(ctx, b2, d2, 0, "the other block, not rotated")
+    b2.rotate(k2 * math.pi / 3.0)
+    _check_turned(ctx, b1, d1, k1, "first block after the second one was rotated")
+    _check_turned(ctx, b2, d2, k2, "second block")
 
 
 def _pin_block(npins):
@@ -195,11 +303,28 @@ _SHARING = ("auto", "auto-in-hex", "shared2", "shared3", "own3")
          instances={"quick": [dict(k=k, sharing="auto") for k in (1, 2, 3, 4, 5, 6)] +
                              [dict(k=k, sharing="shared2", coords=(k in (1, 4))) for k in (1, 2, 3, 4, 5)] +
                              [dict(k=1, sharing="shared3"), dict(k=5, sharing="shared3"),
-                              dict(k=2, sharing="auto-in-hex"), dict(k=4, sharing="own3")],
-                    "thorough": [dict(k=k, sharing=s, coords=True) for s in _SHARING for k in (1, 2, 3, 4, 5, 6, -1)]})
-def block_rotation_pins_sharing_a_locator(ctx, k, sharing, coords=False):
+                              dict(k=2, sharing="auto-in-hex"), dict(k=4, sharing="own3"),
+                              dict(k=1, sharing="auto-in-hex", placed=True)],
+                    "thorough": [dict(k=k, sharing=s, coords=True) for s in _SHARING for k in (1, 2, 3, 4, 5, 6, -1)] +
+                                [dict(k=k, sharing=s, coords=True, placed=True) for s in _SHARING for k in (1, 4, -1)]})
+def block_rotation_pins_sharing_a_locator(ctx, k, sharing, coords=False, placed=False):
     npins = 7 if sharing.startswith("auto") else 2
     b = _pin_block(npins)
+    core = None
+    if placed:
+        # the block is the upper block of an assembly at a symbolic off-centre cell of a full core (pin coordinates of
+        # a block are block-local: rotating the block turns them about the block's axis wherever the block is)
+        from armi.reactor import assemblies
+        ai, aj = ctx.int("ai", -20, 20), ctx.int("aj", -20, 20)
+        _r, core, _as = _build.mk_core([], symmetry="full")
+        a = assemblies.HexAssembly("fuel")
+        a.spatialGrid = grids.AxialGrid.fromNCells(2)
+        a.spatialGrid.armiObject = a
+        a.add(_build.mk_block())
+        a.add(b)
+        a.calculateZCoords()
+        core.add(a, core.spatialGrid[1, 0, 0])
+        a.spatialLocator = IndexLocation(ai, aj, 0, core.spatialGrid)
     fuel, clad, wire = b[0], b[1], b[2]
     cladOd = ctx.real("cladOd", 0.8, 1.2)
     wireOd = ctx.real("wireOd", 0.05, 0.3)
@@ -207,7 +332,7 @@ def block_rotation_pins_sharing_a_locator(ctx, k, sharing, coords=False):
     clad.p.od = cladOd
     wire.p.od = wireOd
     if sharing.startswith("auto"):
-        system = HexGrid.fromPitch(16.2, numRings=2) if sharing == "auto-in-hex" else None
+        system = (core.spatialGrid if placed else HexGrid.fromPitch(16.2, numRings=2)) if sharing == "auto-in-hex" else None
         b.autoCreateSpatialGrids(system)
         g = b.spatialGrid
         pins = [fuel, clad, wire]
